@@ -1027,6 +1027,39 @@ def _copy_of(fn, l, depth=3):
     return l
 
 
+def _enumerate_index(fn, idx_local):
+    """the usize local is the counter of `iter.enumerate()`: the `.0` of the Some payload of <Enumerate<_> as Iterator>::next. Such a
+    counter is smaller than the number of items yielded so far <= the length of a slice/Vec (<= isize::MAX)."""
+    for (b, i, rv) in fn.defs().get(idx_local, []):
+        if i == 'term' or rv['k'] != 'use':
+            return None
+        pl = op_place(rv['op'])
+        if pl is None:
+            return None
+        fields = [p_ for p_ in pl['p'] if isinstance(p_, dict)]
+        if not (len(fields) >= 1 and fields[-1].get('f') == 0):
+            return None
+        # the tuple local holds the payload of next(): follow it back to the call
+        base = pl['l']
+        seen = 0
+        while seen < 4:
+            seen += 1
+            cd = call_def_of_local(fn, base)
+            if cd is not None:
+                c = cd[1]['callee']
+                if c['name'] == 'next' and 'Enumerate<' in (c.get('self_ty') or '') and ('slice::Iter' in c.get('self_ty') or 'vec::IntoIter' in c.get('self_ty') or 'slice::IterMut' in c.get('self_ty')):
+                    continue_ok = True
+                    break
+                return None
+            sd = fn.single_def(base)
+            if sd is None or sd[1] == 'term' or sd[2]['k'] != 'use' or op_place(sd[2]['op']) is None:
+                return None
+            base = op_place(sd[2]['op'])['l']
+        else:
+            return None
+    return 'the counter of enumerate() over a slice: smaller than the slice length' if fn.defs().get(idx_local) else None
+
+
 def _cursor_in_bounds(fn, idx_local, site_block):
     """the usize local is known to be a valid index of an immutable slice parameter at the site: the site is dominated by the Some edge of
     `slice.get(idx)` or by the true edge of `idx < slice.len()` (false edge of `idx >= slice.len()`), and the local is not assigned on
@@ -1224,7 +1257,7 @@ def G_cursor(ctx, prog, lem, site):
                 vals = _small_values(prog, fn, add_op)
                 if not vals or max(vals) > 64 or min(vals) < 0:
                     continue
-                why = _cursor_in_bounds(fn, cur, site['block'])
+                why = _cursor_in_bounds(fn, cur, site['block']) or _enumerate_index(fn, cur)
                 if why:
                     return 'cursor + %s cannot overflow: the cursor is a valid index (%s), hence < isize::MAX' % (sorted(vals), why)
     return None
